@@ -782,7 +782,9 @@ fn shape(v: &Value, o: &mut Vec<String>) {
 // node tokens: 0 z int | 1 k embedded value | 2 probe serializing_for_value() | 3 n seq | 4 n tuple | 5 n map |
 //  6 n struct | 7 x newtype variant | 8 n tuple variant | 9 n struct variant | 10 x some | 11 x nested conversion,
 //  result embedded | 12 x nested conversion, result dropped | 13 x nested conversion under catch_unwind |
-//  14 x conversion on another thread, result embedded | 15 fail (serde error) | 16 panic
+//  14 x conversion on another thread, result embedded | 15 fail (serde error) | 16 panic |
+//  17 k template value k handed to a foreign serializer (serde_json::to_string) during the conversion: its handle is never
+//  redeemed | 18 k struct with `#[serde(flatten)]` on template value k (serde's FlatMapSerializer refuses it: error, handle left behind)
 enum Node {
     Int(i64),
     EmbV(u32),
@@ -801,6 +803,14 @@ enum Node {
     Thread(Box<Node>),
     Fail,
     Panic,
+    Leak(u32),
+    Flatten(u32),
+}
+#[derive(Serialize)]
+struct Flat {
+    id: u32,
+    #[serde(flatten)]
+    extra: Value,
 }
 const FIELD_NAMES: [&str; 10] = ["f0", "f1", "f2", "f3", "f4", "f5", "f6", "f7", "f8", "f9"];
 
@@ -826,6 +836,8 @@ fn parse_node(t: &mut Toks) -> Node {
         13 => Node::NestedCatch(Box::new(parse_node(t))),
         14 => Node::Thread(Box::new(parse_node(t))),
         15 => Node::Fail,
+        17 => Node::Leak(t.int() as u32),
+        18 => Node::Flatten(t.int() as u32),
         _ => Node::Panic,
     }
 }
@@ -902,6 +914,11 @@ impl Serialize for Node {
             }
             Node::Fail => Err(<S::Error as ser::Error>::custom("boom")),
             Node::Panic => panic!("boom"),
+            Node::Leak(k) => {
+                let _ = serde_json::to_string(&pool(*k));
+                s.serialize_unit()
+            }
+            Node::Flatten(k) => Flat { id: 1, extra: pool(*k) }.serialize(s),
         }
     }
 }
@@ -938,6 +955,67 @@ fn push_result(o: &mut Vec<String>, r: Result<String, minijinja::Error>) {
             o.push(err_code(e.kind()).to_string());
         }
     }
+}
+
+// ------------------------------------------------------------------------------------------
+// JSON of every iterable kind (tid 201): `201 0 <expr as len cp..> n d1..dn`
+// ------------------------------------------------------------------------------------------
+const NAMES: [&str; 6] = ["<a>", "b'c", "d&e", "\u{2028}x", "q\"uote\\", ""];
+
+#[derive(Debug)]
+struct Countdown(Vec<i64>);
+impl Object for Countdown {
+    fn repr(self: &Arc<Self>) -> ObjectRepr {
+        ObjectRepr::Iterable
+    }
+    fn enumerate(self: &Arc<Self>) -> minijinja::value::Enumerator {
+        let v = self.0.clone();
+        // an iterator that does not know its length (lower bound 0)
+        minijinja::value::Enumerator::Iter(Box::new(v.into_iter().filter(|_| true).map(Value::from)))
+    }
+}
+
+/// a fresh context for every evaluation (one-shot iterators are consumed by use)
+fn json_ctx(d: &[i64]) -> Value {
+    let d1 = d.to_vec();
+    let d2 = d.to_vec();
+    let d3 = d.to_vec();
+    let sl: Vec<&'static str> = d.iter().map(|i| NAMES[(i.unsigned_abs() % 6) as usize]).collect();
+    let sl2 = sl.clone();
+    let m: BTreeMap<String, i64> = d.iter().enumerate().map(|(i, x)| (format!("k{i}"), *x)).collect();
+    context! {
+        l => Value::from(d.to_vec()),
+        sl => Value::from(sl),
+        m => Value::from(m),
+        one => Value::make_one_shot_iterator(d.to_vec().into_iter()),
+        one_s => Value::make_one_shot_iterator(sl2.into_iter()),
+        lazy => Value::make_iterable(move || d1.clone().into_iter()),
+        lazy0 => Value::make_iterable(move || d2.clone().into_iter().filter(|_| true)),
+        skipw => Value::make_iterable(move || d3.clone().into_iter().skip_while(|x| *x < 0)),
+        obj => Value::from_object(Countdown(d.to_vec())),
+        tup => Value::from(minijinja::value::Tuple::from(d.iter().map(|x| Value::from(*x)).collect::<Vec<_>>())),
+    }
+}
+
+/// Output: `0 <shape of the expression's value> <tojson> <tojson(indent=2)> <.json> <.js> <.yaml>` or `1 code` when the
+/// expression itself does not evaluate.
+fn run_json_expr(env: &Environment, toks: &[String], start: usize) -> Vec<String> {
+    let mut t = Toks { v: toks, i: start };
+    let expr = t.string();
+    let n = (t.int() as usize).min(16);
+    let d: Vec<i64> = (0..n).map(|_| t.int() as i64).collect();
+    let value = match env.compile_expression(&expr).and_then(|e| e.eval(json_ctx(&d))) {
+        Ok(v) => v,
+        Err(e) => return vec!["1".into(), err_code(e.kind()).to_string()],
+    };
+    let mut o = vec!["0".to_string()];
+    shape(&value, &mut o);
+    push_result(&mut o, env.render_named_str("a.txt", &format!("{{{{ ({expr})|tojson }}}}"), json_ctx(&d)));
+    push_result(&mut o, env.render_named_str("b.txt", &format!("{{{{ ({expr})|tojson(indent=2) }}}}"), json_ctx(&d)));
+    for name in ["c.json", "c.js", "c.yaml"] {
+        push_result(&mut o, env.render_named_str(name, &format!("{{{{ {expr} }}}}"), json_ctx(&d)));
+    }
+    o
 }
 
 fn run<T>(env: &Environment, toks: &[String], start: usize, no_rt: bool) -> Vec<String>
@@ -1025,6 +1103,9 @@ fn main() {
         let toks = c.v;
         if tid == 200 {
             return run_prog(toks, start);
+        }
+        if tid == 201 {
+            return run_json_expr(&env, toks, start);
         }
         dispatch!(tid, &env, toks, start;
             0 => Prims, 1 => Floats, 2 => Opts, 3 => (), 4 => UnitS, 5 => NewI, 6 => NewS, 7 => TupS,
